@@ -1,0 +1,19 @@
+//go:build !verif
+
+/*
+Copyright 2026 Codenotary Inc. All rights reserved.
+
+SPDX-License-Identifier: BUSL-1.1
+*/
+
+package store
+
+// vLogIDs returns the ids of the value logs in map iteration order (the order
+// in which the store has always visited them).
+func (s *ImmuStore) vLogIDs() []byte {
+	ids := make([]byte, 0, len(s.vLogs))
+	for i := range s.vLogs {
+		ids = append(ids, i)
+	}
+	return ids
+}
